@@ -250,8 +250,8 @@ func checkC16(c *Ctx, r *Report) {
 		r.add("C16.c", "no-reorder", "annotations:source-order", "attribute order is source order: comments are appended in doc-list order and never sorted or passed through a map", fns, sites, viol)
 	}
 	ruleEach(c, r, "C16.c", "gast.MapDocListToCommentBlock",
-		func(fi *FuncInfo) func(ast.Expr) bool { return identNamed("docList") }, "docList",
-		func(fi *FuncInfo) func(ast.Node) bool { return w.appendTo(fi, identNamed("comments")) }, "append(comments, …)", nil, false,
+		func(fi *FuncInfo) func(ast.Expr) bool { return w.paramOfType(fi, "[]*go/ast.Comment") }, "docList",
+		func(fi *FuncInfo) func(ast.Node) bool { return w.appendTo(fi, w.resultSlice(fi)) }, "append(comments, …)", nil, false,
 		"every line of the doc comment becomes a comment node (a skipped line leaves a gap in the indices, which GetDescription reads as the end of the leading free text, and disappears from NonAttributeComments)")
 	if fi := need(c, r, "C16.c", nah); fi != nil {
 		// free text is the line without the comment marker and surrounding blanks - nothing else is stripped
@@ -464,7 +464,9 @@ func checkAnnotationRegex(c *Ctx, r *Report, clause string) {
 					viol = "group 1 (annotation name) is not `\\w+`"
 				}
 				g3 := caps[2].Sub[0]
-				isLit := func(x *syntax.Regexp, ch rune) bool { return x.Op == syntax.OpLiteral && len(x.Rune) >= 1 && x.Rune[0] == ch }
+				isLit := func(x *syntax.Regexp, ch rune) bool {
+					return x.Op == syntax.OpLiteral && len(x.Rune) >= 1 && x.Rune[0] == ch
+				}
 				if g3.Op != syntax.OpConcat || len(g3.Sub) < 2 || !isLit(g3.Sub[0], '{') || !isLit(g3.Sub[len(g3.Sub)-1], '}') {
 					viol = fmt.Sprintf("group 3 (JSON5 object) does not start with `{` and end with `}`: %s", g3.String())
 				}
